@@ -377,12 +377,12 @@ fn oligo_cases(ctx: &Ctx) -> Vec<(OligoCase, Option<u32>, String)> {
         (3, 2, 1, false, None),
         (3, 3, 1, true, if ctx.thorough() { None } else { Some(4) }),
         (3, 4, 2, false, if ctx.thorough() { None } else { Some(3) }),
-        (4, 3, 1, false, Some(ctx.pick(2, 5))),
+        (4, 3, 1, false, Some(ctx.pick(2, 6))),
     ];
     if ctx.thorough() {
         table.push((2, 4, 2, false, None));
-        table.push((4, 2, 1, false, Some(5)));
-        table.push((4, 4, 1, true, Some(3)));
+        table.push((4, 2, 1, false, None));
+        table.push((4, 4, 1, true, Some(4)));
     }
     for (n, r, k, header, bound) in table {
         v.push((
@@ -401,7 +401,7 @@ fn oligo_cases(ctx: &Ctx) -> Vec<(OligoCase, Option<u32>, String)> {
     // the batch-memory limit is a public setting of the computer: small limits (about one, two and three records
     // worth of bases) crossed with the interleavings, on enough records for several rounds of pulling
     let six: Vec<Vec<u8>> = vec![b"AAAC".to_vec(), b"CCG".to_vec(), b"ACGTT".to_vec(), b"GGA".to_vec(), b"TTTTA".to_vec(), b"CAG".to_vec()];
-    for (n, r, mem, bound) in [(2usize, 5usize, 1usize, Some(ctx.pick(2, 3))), (2, 6, 8, Some(ctx.pick(3, 5))), (2, 6, 11, Some(ctx.pick(3, 5))), (3, 6, 8, Some(ctx.pick(2, 3)))] {
+    for (n, r, mem, bound) in [(2usize, 5usize, 1usize, Some(ctx.pick(2, 5))), (2, 6, 8, Some(ctx.pick(3, 7))), (2, 6, 11, Some(ctx.pick(3, 7))), (3, 6, 8, Some(ctx.pick(2, 4)))] {
         v.push((
             OligoCase {
                 threads: n,
@@ -700,15 +700,15 @@ pub fn c07_sched(ctx: &mut Ctx) {
     let ac = b"AC".to_vec();
     let gt = b"GT".to_vec();
     let cases: Vec<(CtrCase, Option<u32>, &str)> = vec![
-        (CtrCase { threads: 2, k: 2, mem: 4e-9, records: vec![aca.clone(), aca.clone()], delete: false }, Some(ctx.pick(3, 5)), "N2.limit0"),
-        (CtrCase { threads: 2, k: 2, mem: 6.0, records: vec![aca.clone(), cac.clone()], delete: true }, Some(ctx.pick(3, 5)), "N2.unlimited"),
+        (CtrCase { threads: 2, k: 2, mem: 4e-9, records: vec![aca.clone(), aca.clone()], delete: false }, Some(ctx.pick(3, 6)), "N2.limit0"),
+        (CtrCase { threads: 2, k: 2, mem: 6.0, records: vec![aca.clone(), cac.clone()], delete: true }, Some(ctx.pick(3, 6)), "N2.unlimited"),
         // the same canonical k-mer met on opposite strands by two workers (AC / GT)
         (CtrCase { threads: 2, k: 2, mem: 6.0, records: vec![ac.clone(), gt.clone(), ac.clone()], delete: true }, Some(ctx.pick(3, 6)), "N2.strands"),
-        (CtrCase { threads: 2, k: 1, mem: 3.2e-8, records: vec![aca.clone(), cac.clone(), aca.clone()], delete: true }, Some(ctx.pick(2, 3)), "N2.limit4"),
-        (CtrCase { threads: 3, k: 2, mem: 4e-9, records: vec![aca.clone(), aca.clone(), cac.clone()], delete: false }, Some(ctx.pick(2, 3)), "N3.limit0"),
-        (CtrCase { threads: 3, k: 2, mem: 6.0, records: vec![ac.clone(), gt.clone(), ac.clone()], delete: true }, Some(ctx.pick(2, 3)), "N3.strands"),
+        (CtrCase { threads: 2, k: 1, mem: 3.2e-8, records: vec![aca.clone(), cac.clone(), aca.clone()], delete: true }, Some(ctx.pick(2, 4)), "N2.limit4"),
+        (CtrCase { threads: 3, k: 2, mem: 4e-9, records: vec![aca.clone(), aca.clone(), cac.clone()], delete: false }, Some(ctx.pick(2, 4)), "N3.limit0"),
+        (CtrCase { threads: 3, k: 2, mem: 6.0, records: vec![ac.clone(), gt.clone(), ac.clone()], delete: true }, Some(ctx.pick(2, 4)), "N3.strands"),
         // records without any k-mer between records with k-mers: a chunk may hold only such records
-        (CtrCase { threads: 2, k: 2, mem: 4e-9, records: vec![b"N".to_vec(), aca.clone(), b"A".to_vec(), ac.clone()], delete: true }, Some(ctx.pick(2, 3)), "N2.nokmer"),
+        (CtrCase { threads: 2, k: 2, mem: 4e-9, records: vec![b"N".to_vec(), aca.clone(), b"A".to_vec(), ac.clone()], delete: true }, Some(ctx.pick(2, 4)), "N2.nokmer"),
     ];
     for (case, bound, label) in cases {
         ctr_explore(ctx, &case, bound, label);
@@ -989,8 +989,8 @@ pub fn c10_sched(ctx: &mut Ctx) {
         (2, vec![r1.clone(), r2.clone()], 3, if ctx.thorough() { None } else { Some(4) }, "N2R2w3"),
         (2, vec![r1.clone(), r4.clone()], 3, if ctx.thorough() { None } else { Some(4) }, "N2R2w3rc"),
         (2, vec![r1.clone(), r2.clone(), r3.clone()], 3, if ctx.thorough() { None } else { Some(4) }, "N2R3w3"),
-        (3, vec![r1.clone(), r2.clone(), r1.clone()], 0, Some(ctx.pick(3, 6)), "N3R3w0"),
-        (3, vec![r1.clone(), r4.clone(), r2.clone()], 3, Some(ctx.pick(3, 5)), "N3R3w3rc"),
+        (3, vec![r1.clone(), r2.clone(), r1.clone()], 0, if ctx.thorough() { None } else { Some(3) }, "N3R3w0"),
+        (3, vec![r1.clone(), r4.clone(), r2.clone()], 3, Some(ctx.pick(3, 6)), "N3R3w3rc"),
     ] {
         let case = MinCase {
             threads,
